@@ -180,21 +180,11 @@ def run(v) -> None:
     traces = [{"hdr": {}, "ev": [{k: e[k] for k in ("api", "dtypeOk", "nbits", "orderHead", "insize", "outsize",
                                                     "outcome", "inp", "out")} for e in events[i:i + 200]],
                "raw": events[i:i + 200]} for i in range(0, len(events), 200)]
-    rejected = tracecheck.validate("Trace_Bits", traces, verdict=v, label="bits calls")
-    # A rejected batch stops at its first bad event; re-validate the remainder so every event is judged.
-    pending = list(rejected)
-    guard = 0
-    while pending and guard < 2000:
-        guard += 1
-        tr, pos = pending.pop()
-        e = tr["raw"][pos - 1]
+    for tr, pos in tracecheck.validate("Trace_Bits", traces, verdict=v, label="bits calls"):
+        e = tr["raw"][abs(pos) - 1]
         v.violation("CallMatchesSpec", ("kernels." if e["site"] == "kernel" else "sigpyproc.io.bits.") + e["api"],
                     {k: e[k] for k in ("api", "nbits", "order", "buf", "inp", "outsize", "dtypeOk")},
                     {"outcome": e["outcome"], "out": e["out"]}, "Bits!CallOutcome / Bits!Unpack / Bits!Pack")
-        rest_raw = tr["raw"][pos:]
-        if rest_raw:
-            rest = [{"hdr": {}, "ev": tr["ev"][pos:], "raw": rest_raw}]
-            pending += tracecheck.validate("Trace_Bits", rest, verdict=v, label="remainder")
     v.traces += len(events)
     v.sample({"T_event": {k: events[len(events) // 2][k] for k in ("api", "nbits", "order", "buf", "inp", "out", "outcome")}})
     v.exhaustive = True
